@@ -79,6 +79,13 @@ func c03Sound(c *runner.Ctx, src string, styles []int, seeds []uint64, tag strin
 			cls := ClassifyRunErr(o.Err)
 			c.Count("run_failed_"+cls, 1)
 			if cls == ClsType {
+				if strings.Contains(o.Err.Error(), "Call using []interface {} as type []") {
+					// one root cause whatever the expression: a map/filter/array
+					// result (always built as []interface{}) reaches a typed
+					// slice parameter
+					c.Violate("type-failure:[]interface{}-result-passed-to-typed-slice-parameter", "a statically typed expression failed for a type reason: "+firstLine(o.Err.Error()), cas)
+					return
+				}
 				c.Violate(tag+"type-failure:"+errKeyOf(o.Err), "a statically typed expression failed for a type reason: "+firstLine(o.Err.Error()), cas)
 				return
 			}
